@@ -315,6 +315,7 @@ def _worker(prop_id, tier, seed, k, K, repo, conn, replay_case=None):
         per = max(1, n // K)
         hseed = int(hashlib.sha256(("%s:%d:%d" % (prop_id, seed, k)).encode()).hexdigest()[:15], 16)
         last = {}
+        shrink_cap = int(os.environ.get("VERIF_SHRINK", 250 if tier == "quick" else 1200))
 
         @hypothesis.seed(hseed)
         @settings(max_examples=per, database=None, deadline=None, derandomize=False,
@@ -322,10 +323,15 @@ def _worker(prop_id, tier, seed, k, K, repo, conn, replay_case=None):
                   report_multiple_bugs=False, verbosity=Verbosity.quiet)
         @given(prop.strategy())
         def test(case):
+            if "ex" in last:
+                last["steps"] = last.get("steps", 0) + 1
+                if last["steps"] > shrink_cap:
+                    return      # shrink budget used up: every further candidate "passes", Hypothesis stops quickly
             try:
                 handle(case, True)
             except ViolationError as ex:
-                last["ex"] = ex
+                if "ex" not in last or len(json.dumps(_jsonable(ex.case))) <= len(json.dumps(_jsonable(last["ex"].case))):
+                    last["ex"] = ex
                 raise
 
         if not state["abort"]:
